@@ -3,8 +3,10 @@
 An OR-Set supports both add and remove operations with add-wins
 semantics on concurrent operations. Each addition generates a unique
 tag ``(node_id, sequence_number)``. Remove deletes all *observed* tags
-for an element. If a concurrent add creates a new tag, it survives
-the remove (add-wins).
+for an element and remembers them as removed (tombstones), so that a
+later merge with a replica that still holds one of those tags cannot
+bring the element back. If a concurrent add creates a new tag, it
+survives the remove (add-wins).
 
 Example::
 
@@ -38,11 +40,12 @@ class ORSet:
         node_id: Identifier for this replica.
     """
 
-    __slots__ = ("_entries", "_node_id", "_seq")
+    __slots__ = ("_entries", "_node_id", "_removed", "_seq")
 
     def __init__(self, node_id: str):
         self._node_id = node_id
         self._entries: dict[Any, set[tuple[str, int]]] = {}
+        self._removed: set[tuple[str, int]] = set()
         self._seq: int = 0
 
     @property
@@ -75,12 +78,15 @@ class ORSet:
     def remove(self, element: Any) -> None:
         """Remove an element by clearing all its observed tags.
 
-        If the element is not present, this is a no-op.
+        The cleared tags are kept as tombstones so the removal also
+        wins against replicas that still hold them. If the element is
+        not present, this is a no-op.
 
         Args:
             element: The element to remove.
         """
         if element in self._entries:
+            self._removed |= self._entries[element]
             self._entries[element].clear()
 
     def contains(self, element: Any) -> bool:
@@ -98,19 +104,25 @@ class ORSet:
         """Merge another OR-Set into this one.
 
         For each element, the resulting tag set is the union of both
-        replicas' tags. This means:
+        replicas' tags minus the tags either replica has removed. This
+        means:
         - Elements added on either side are present.
+        - An element removed on one side stays removed even if the
+          other side still holds the removed tags.
         - An element removed on one side but concurrently added on
           the other survives (add-wins).
 
         Args:
             other: Another ORSet to merge from.
         """
+        self._removed |= other._removed
         for element, other_tags in other._entries.items():
             if element not in self._entries:
                 self._entries[element] = set(other_tags)
             else:
                 self._entries[element] |= other_tags
+        for tags in self._entries.values():
+            tags -= self._removed
 
     def to_dict(self) -> dict:
         """Serialize to a plain dict."""
@@ -122,6 +134,7 @@ class ORSet:
             "node_id": self._node_id,
             "seq": self._seq,
             "entries": entries,
+            "removed": [list(tag) for tag in sorted(self._removed)],
         }
 
     @classmethod
@@ -135,6 +148,7 @@ class ORSet:
         s._seq = data["seq"]
         for element, tags in data["entries"].items():
             s._entries[element] = {tuple(tag) for tag in tags}
+        s._removed = {tuple(tag) for tag in data.get("removed", [])}
         return s
 
     def __contains__(self, element: Any) -> bool:
